@@ -360,10 +360,39 @@ func witnesses() []kase {
 // ---------------------------------------------------------------------------
 // monitor
 
-// allowedLexically asks the implementation's own lexical rule about a path.
+// allowedLexically: is the (real, link-free) path p inside the configured
+// allowed paths?  This is the monitor's own reading of the configuration
+// format (prefix, "/**", glob on the path or one of its ancestors, "*"),
+// independent of the code under test, so that a defect in the code's
+// matching rule is seen as well.
 func allowedLexically(allowed []string, p string) bool {
-	h := filetransfer.NewStreamHandler(filetransfer.StreamConfig{Enabled: true, AllowedPaths: allowed})
-	return h.ValidateUploadMetadata(&filetransfer.TransferMetadata{Path: p}) == nil
+	p = filepath.Clean(p)
+	under := func(path, root string) bool {
+		return path == root || strings.HasPrefix(path, strings.TrimSuffix(root, "/")+"/")
+	}
+	for _, pat := range allowed {
+		if pat == "*" {
+			return true
+		}
+		cp := filepath.Clean(pat)
+		switch {
+		case strings.HasSuffix(cp, "/**"):
+			if under(p, strings.TrimSuffix(cp, "/**")) {
+				return true
+			}
+		case strings.ContainsAny(cp, "*?["):
+			for d := p; d != "/" && d != "."; d = filepath.Dir(d) {
+				if ok, err := filepath.Match(cp, d); err == nil && ok {
+					return true
+				}
+			}
+		default:
+			if filepath.IsAbs(cp) && under(p, cp) {
+				return true
+			}
+		}
+	}
+	return false
 }
 
 // realPath resolves all links of the longest existing prefix of p.
